@@ -10,7 +10,10 @@
    (resume = r0) killed at crash point cps[0], a restart with resume=True killed at cps[1], ...
    A crash point (k, lost) kills the process after its first k traced file-system operations;
    lost = true: buffered data and the write in flight reach the disk only partially.
-   `traj` is the uninterrupted computation. *)
+   `traj` is the uninterrupted computation.  `step i seed` gets the seed sequence pushed for
+   iteration i; `raw i` is child i of the random state saved by the first run, `fresh i` is
+   `fresh_stochasticity(i)`; [sched] is the schedule of the uninterrupted run: iteration i uses the
+   raw seed of the last iteration <= i with fresh_stochasticity True. *)
 From Coq Require Import List Arith Bool NArith.
 Import ListNotations.
 Require Import NV.C25.Model NV.C25.ProofsBase NV.C25.Proofs.
@@ -21,25 +24,27 @@ Require Import NV.C25.Model NV.C25.ProofsBase NV.C25.Proofs.
    and EVERY finite sequence of crash points (also crashes of restarted runs): the final restart
    with resume=True does not raise and returns the (mean, samples) of the uninterrupted run. *)
 Theorem C25_resume_equiv :
-  forall (M R E H : Type) (step : nat -> St M R -> St M R) (estep : nat -> St M R -> E -> E)
-         (hstep : nat -> St M R -> H -> H) (init : St M R) (e0 : E) (h0 : H) (sg : strategy),
-    (forall i st, snd (step i st) <> []) ->
+  forall (M R E H Seed : Type) (step : nat -> Seed -> St M R -> St M R) (estep : nat -> St M R -> E -> E)
+         (hstep : nat -> St M R -> H -> H) (init : St M R) (e0 : E) (h0 : H)
+         (raw : nat -> Seed) (fresh : nat -> bool) (sg : strategy),
+    (forall i sd st, snd (step i sd st) <> []) -> fresh 0 = true ->
     forall (n : nat) (r0 : bool) (cps : list (nat * bool)) (d0 : disk M R E H),
       lookup M R E H Marker d0 = None ->
-      snd (run M R E H step estep hstep init e0 h0 fixed_proto sg true n
-             (chain M R E H step estep hstep init e0 h0 fixed_proto sg n r0 cps d0))
-      = Ok (tst M R E H step estep hstep init e0 h0 n).
+      snd (run M R E H Seed step estep hstep init e0 h0 raw fresh fixed_proto sg true n
+             (chain M R E H Seed step estep hstep init e0 h0 raw fresh fixed_proto sg n r0 cps d0))
+      = Ok (tst M R E H Seed step estep hstep init e0 h0 raw fresh n).
 Proof. exact resume_equiv. Qed.
 
 (* ... which is what the uninterrupted run returns. *)
 Theorem C25_uninterrupted :
-  forall (M R E H : Type) (step : nat -> St M R -> St M R) (estep : nat -> St M R -> E -> E)
-         (hstep : nat -> St M R -> H -> H) (init : St M R) (e0 : E) (h0 : H) (sg : strategy),
-    (forall i st, snd (step i st) <> []) ->
+  forall (M R E H Seed : Type) (step : nat -> Seed -> St M R -> St M R) (estep : nat -> St M R -> E -> E)
+         (hstep : nat -> St M R -> H -> H) (init : St M R) (e0 : E) (h0 : H)
+         (raw : nat -> Seed) (fresh : nat -> bool) (sg : strategy),
+    (forall i sd st, snd (step i sd st) <> []) -> fresh 0 = true ->
     forall (n : nat) (r : bool) (d0 : disk M R E H),
       lookup M R E H Marker d0 = None ->
-      snd (run M R E H step estep hstep init e0 h0 fixed_proto sg r n d0)
-      = Ok (tst M R E H step estep hstep init e0 h0 n).
+      snd (run M R E H Seed step estep hstep init e0 h0 raw fresh fixed_proto sg r n d0)
+      = Ok (tst M R E H Seed step estep hstep init e0 h0 raw fresh n).
 Proof. exact uninterrupted. Qed.
 
 (* A crash never leaves a directory from which resuming is impossible or silently wrong: after
@@ -48,21 +53,39 @@ Proof. exact uninterrupted. Qed.
    history, minisanity history of iteration j, random state) is complete and holds exactly what
    the uninterrupted run had after iteration j -- never a mixture of two iterations. *)
 Theorem C25_disk_invariant :
-  forall (M R E H : Type) (step : nat -> St M R -> St M R) (estep : nat -> St M R -> E -> E)
-         (hstep : nat -> St M R -> H -> H) (init : St M R) (e0 : E) (h0 : H) (sg : strategy),
-    (forall i st, snd (step i st) <> []) ->
+  forall (M R E H Seed : Type) (step : nat -> Seed -> St M R -> St M R) (estep : nat -> St M R -> E -> E)
+         (hstep : nat -> St M R -> H -> H) (init : St M R) (e0 : E) (h0 : H)
+         (raw : nat -> Seed) (fresh : nat -> bool) (sg : strategy),
+    (forall i sd st, snd (step i sd st) <> []) -> fresh 0 = true ->
     forall (n : nat) (r0 : bool) (cps : list (nat * bool)) (d0 : disk M R E H),
       lookup M R E H Marker d0 = None ->
-      good M R E H step estep hstep init e0 h0 sg n
-           (chain M R E H step estep hstep init e0 h0 fixed_proto sg n r0 cps d0).
+      good M R E H Seed step estep hstep init e0 h0 raw fresh sg n
+           (chain M R E H Seed step estep hstep init e0 h0 raw fresh fixed_proto sg n r0 cps d0).
 Proof. exact disk_invariant. Qed.
+
+(* The seed schedule (`C25_rng_schedule` of the design): the list every run prepares -- a fresh run
+   and a resumed one alike, the loop runs over range(total_iterations) whatever the first
+   iteration to execute is -- holds at every index k < n the seed of the uninterrupted run,
+   [sched k] = raw seed of the last iteration <= k with fresh_stochasticity True (also inside a chain
+   of consecutive non-fresh iterations).  [tst], the trajectory of C25_resume_equiv, is defined
+   with [step i (sched i)]. *)
+Theorem C25_rng_schedule :
+  forall (Seed : Type) (raw : nat -> Seed) (fresh : nat -> bool), fresh 0 = true ->
+  forall n, exists sq, prepare Seed raw fresh n 0 (raws Seed raw n) = Some sq /\
+                       forall k, k < n -> seed_at Seed raw sq k = sched Seed raw fresh k.
+Proof. intros Seed raw fresh H0 n. exact (prepare_all_sched Seed raw fresh H0 n). Qed.
+
+Theorem C25_sched_spec :
+  forall (Seed : Type) (raw : nat -> Seed) (fresh : nat -> bool) (k : nat),
+    sched Seed raw fresh (S k) = if fresh (S k) then raw (S k) else sched Seed raw fresh k.
+Proof. reflexivity. Qed.
 
 (* ---- documentation of the defects of the OLD protocol (before C25-1 / C25-2), on the instance
    the correspondence check runs (2 iterations, 2 residual files per iteration); each witness was
    replayed on the unfixed implementation (corpus/C25) ---- *)
 Definition old_outcome (sg : strategy) (pr : proto) (k : nat) :=
-  snd (irun pr sg [2; 2] true 2 (ichain pr sg [2; 2] 2 false [(k, true)] [])).
-Definition reference (sg : strategy) (pr : proto) := snd (irun pr sg [2; 2] false 2 []).
+  snd (irun pr sg [2; 2] [] true 2 (ichain pr sg [2; 2] [] 2 false [(k, true)] [])).
+Definition reference (sg : strategy) (pr : proto) := snd (irun pr sg [2; 2] [] false 2 []).
 
 (* OLD protocol, any strategy: killed between the truncation and the write of the marker
    (16 operations in) -> the marker is empty and resume raises. *)
@@ -93,3 +116,23 @@ Example C25_fixed_instance :
   forallb (fun k => match old_outcome SLatest fixed_proto k, reference SLatest fixed_proto with
                     | Ok a, Ok b => st_eqb a b | _, _ => false end) [16; 18; 24; 33; 43; 47; 58] = true.
 Proof. split; vm_compute; reflexivity. Qed.
+
+(* A variant that prepares the seed schedule only from initial_index on (cut_schedule_proto; not
+   the history of the code, kept as the witness that the schedule matters): 4 iterations,
+   fresh_stochasticity = [True, True, False, False]; killed right after the marker of iteration 2
+   (the first of the two non-fresh iterations) was moved into place -> the restart re-runs
+   iteration 3 with the raw seed of iteration 2 instead of the chained seed of iteration 1: it
+   finishes, but with a different result.  The code as it is returns the reference. *)
+Definition cut_outcome (pr : proto) (k : nat) :=
+  snd (irun pr SAll [2; 2; 2; 2] [true; true; false; false] true 4
+         (ichain pr SAll [2; 2; 2; 2] [true; true; false; false] 4 false [(k, true)] [])).
+Definition cut_reference (pr : proto) := snd (irun pr SAll [2; 2; 2; 2] [true; true; false; false] false 4 []).
+
+Theorem C25_cut_schedule_refuted :
+  exists k st ref, cut_outcome cut_schedule_proto k = Ok st /\ cut_reference cut_schedule_proto = Ok ref /\
+                   st_eqb st ref = false.
+Proof. exists 86. eexists. eexists. split; [ | split]; vm_compute; reflexivity. Qed.
+
+Example C25_cut_schedule_fixed :
+  match cut_outcome fixed_proto 86, cut_reference fixed_proto with Ok a, Ok b => st_eqb a b | _, _ => false end = true.
+Proof. vm_compute. reflexivity. Qed.
